@@ -19,6 +19,8 @@
                   full: a full bucket accrues nothing, not even a fraction of a byte);
      "steponly"   the code before fix 62262af: only step() refills.  Credit left over from the previous refill is
                   spent by the flush that precedes step(), then step() grants up to another bucket (finding F22);
+     "carryfull"  a seeded change (batch 6, C13): when the bucket is full the reference time advances only by the time
+                  the bytes that still fitted took to accrue, so idle time is saved up and spent later;
      "rounding"   the code before fix 8b67270: a refill credits round(rate x elapsed) and restarts the elapsed
                   time from zero, so a regular cadence keeps the same rounding error every time (finding F25).
 
@@ -51,8 +53,11 @@ Fill ==
         rounded == (2 * d + RateD) \div (2 * RateD)   \* round(rate x elapsed), half away from zero
         new == IF Variant = "rounding" THEN rounded ELSE whole
         full == Variant = "repaired" /\ alloc + new >= Cap
+        \* "carryfull": a full bucket keeps the elapsed time it could not use (only the bytes that still fitted are paid for)
+        fits == IF alloc >= Cap THEN 0 ELSE Min(new, Cap - alloc)
     IN  [alloc |-> Min(alloc + new, Cap),
-         ref |-> IF full THEN NowU                              \* full: nothing accrues meanwhile, the elapsed time starts over
+         ref |-> IF Variant = "carryfull" THEN ref + fits * RateD   \* (a seeded change of batch 6: idle time is saved up)
+                 ELSE IF full THEN NowU                         \* full: nothing accrues meanwhile, the elapsed time starts over
                  ELSE IF new = 0 THEN ref                       \* nothing accrued yet: keep accumulating
                  ELSE IF Variant = "rounding" THEN NowU        \* elapsed time restarts from zero
                  ELSE ref + new * RateD]                        \* advance by the time the whole bytes took
